@@ -1095,6 +1095,24 @@ def check_C11(ctx, rep):
                 return True
         return False
     rep.ob('C11.R1', fs, 'same-version-constant', uses_const(fa, 'maybenot::constants::VERSION') and uses_const(sa_, 'maybenot::constants::VERSION'), '')
+    # the version prefix is formatted the same way on both sides: the format template from_str compares the first two characters
+    # with (a lone placeholder) is a prefix of the template serialize writes with (that placeholder followed by the payload)
+
+    def templates(fn_):
+        out = []
+        for bb in fn_.blocks:
+            for st in bb['s']:
+                x = st.get('rv', {}).get('x', {}) if 'rv' in st else {}
+                k = x.get('k') if isinstance(x, dict) else None
+                if isinstance(k, dict) and str(k.get('text', '')).startswith('b"'):
+                    out.append(k['text'][2:-1])
+        return out
+    import re as _re
+    bare = lambda t: not _re.search(r'[A-Za-z ,:]{4,}', _re.sub(r'\\x[0-9a-f]{2}', '', t))
+    tf = [t for t in templates(fs) if bare(t)]
+    ts = templates(se)
+    okt = len(tf) == 1 and len(ts) == 1 and tf[0].endswith('\\x00') and ts[0].startswith(tf[0][:-4]) and len(ts[0]) > len(tf[0])
+    rep.ob('C11.R1', fs, 'version-prefix-formatted-alike', okt, 'from_str compares with template %s, serialize writes with %s' % (tf, ts))
     zdec = [cs for (b, f, a, t) in calls(fa) for cs in [callee_str(f)] if 'ZlibDecoder' in cs]
     zenc = [cs for (b, f, a, t) in calls(sa_) for cs in [callee_str(f)] if 'ZlibEncoder' in cs]
     rep.ob('C11.R1', fs, 'zlib-pair', any(c.endswith('::new') for c in zdec) and any(c.endswith('::new') for c in zenc), 'decoder calls %s / encoder calls %s' % (zdec, zenc))
